@@ -44,6 +44,13 @@ impl InstallManifest {
         let header = InstallHeader::read(&mut cursor)?;
         header.validate()?;
 
+        // Every entry takes at least a path terminator, the key and the size:
+        // an entry count the input cannot hold must not size an allocation
+        let min_entry_size = 1 + header.ckey_length as usize + 4;
+        if (header.entry_count as usize).saturating_mul(min_entry_size) > data.len() {
+            return Err(std::io::Error::from(std::io::ErrorKind::UnexpectedEof).into());
+        }
+
         // Parse tags
         let mut tags = Vec::with_capacity(header.tag_count as usize);
         for _ in 0..header.tag_count {
